@@ -16,6 +16,7 @@
 -/
 import Proofs.GoTiePluginR
 import Proofs.GoTiePluginI
+import Proofs.GoTieWriteStanza
 namespace AgeModel
 namespace Tie.C16
 open Extracted Plugin GoTie
@@ -41,6 +42,20 @@ theorem identity_client_tie {S σ υ χ : Type} (E : PluginEnv S σ υ χ)
       | .ok k => res.1 = k ∧ res.2 = none
       | .error e => res.1 = [] ∧ iErrRel E e res.2 :=
   GoTie.identity_client_tie E encoding grease stanzas
+
+/-! What goes on the wire: `writeStanza` / `writeStanzaWithBody` (translated on top of the translated
+`Stanza.Marshal`) write the canonical serialisation of the stanza they are given — the "writing
+appends one stanza to the transcript" assumption of `PluginEnv`, at the level of bytes. -/
+
+theorem writeStanza_tie {δ ε ω : Type} (E : GoTie.MarshalEnv δ ε ω) (t : Bytes) (args : List Bytes) (d : δ) :
+    ∃ d', plugin_writeStanza E.W E.b64 E.New E.Wr E.Cl d t args = .ok (none, d') ∧
+      E.absD d' = E.absD d ++ Format.marshalStanza ⟨t, args, []⟩ :=
+  GoTie.writeStanza_tie E t args d
+
+theorem writeStanzaWithBody_tie {δ ε ω : Type} (E : GoTie.MarshalEnv δ ε ω) (t body : Bytes) (d : δ) :
+    ∃ d', plugin_writeStanzaWithBody E.W E.b64 E.New E.Wr E.Cl d t body = .ok (none, d') ∧
+      E.absD d' = E.absD d ++ Format.marshalStanza ⟨t, [], body⟩ :=
+  GoTie.writeStanzaWithBody_tie E t body d
 
 end Tie.C16
 end AgeModel
